@@ -291,6 +291,61 @@ pub(crate) fn spec_format_string(input: &str) -> Option<FormatString<'_>> {
 }
 
 // ---------------------------------------------------------------------------------------------
+// What rustc ACTUALLY accepts as one placeholder (superset of the documented grammar; established by experiments
+// against rustc 1.95, DESIGN.md §10.4): whitespace is also skipped between the argument and `:`, and a `.` may be
+// followed by no precision. Used for ONE purpose only: a literal that the derive's `format` takes for a single
+// placeholder is delegated transparently and never reaches `format_args!`, so there the derive must not accept
+// anything rustc rejects (property: "a literal that std rejects is never silently accepted").
+pub(crate) fn rustc_accepts_single_placeholder(input: &str) -> bool {
+    let Some(mut cur) = eat(input, '{') else { return false };
+    if let Some((r, _)) = spec_argument(cur) {
+        cur = r;
+    }
+    cur = spec_ws(cur);
+    if let Some(r) = eat(cur, ':') {
+        cur = r;
+        // [[fill]align]
+        if let Some((_, r1)) = first(cur) {
+            if let Some((r2, _)) = spec_align(r1) {
+                cur = r2;
+            } else if let Some((r2, _)) = spec_align(cur) {
+                cur = r2;
+            }
+        }
+        if let Some((r, _)) = spec_sign(cur) {
+            cur = r;
+        }
+        if let Some(r) = eat(cur, '#') {
+            cur = r;
+        }
+        if let Some(r) = eat(cur, '0') {
+            if eat(r, '$').is_none() {
+                cur = r;
+            }
+        }
+        if let Some((r, _)) = spec_count(cur) {
+            cur = r;
+        }
+        if let Some(r) = eat(cur, '.') {
+            cur = r;
+            if let Some((r, _)) = spec_precision(cur) {
+                cur = r;
+            }
+        }
+        // type: known letters only (format_args! rejects unknown traits later, still a compile error)
+        let b = cur.as_bytes();
+        if b.len() >= 2 && b[1] == b'?' && (b[0] == b'x' || b[0] == b'X') {
+            cur = &cur[2..];
+        } else if let Some(&c) = b.first() {
+            if matches!(c, b'?' | b'o' | b'x' | b'X' | b'p' | b'b' | b'e' | b'E') {
+                cur = &cur[1..];
+            }
+        }
+    }
+    matches!(eat(spec_ws(cur), '}'), Some(rest) if rest.is_empty())
+}
+
+// ---------------------------------------------------------------------------------------------
 // placeholder list (what `format_args!` does with the parsed pieces)
 
 #[derive(Clone, Debug, PartialEq, Eq)]
